@@ -363,6 +363,48 @@ func runEngHistory(t *testing.T, self string, base string, seed int64, index int
 			if generated {
 				continue
 			}
+			if s.Dir != nil {
+				// edits inside a source directory: content, rename (same content under another name), add, delete,
+				// and a rename back (the directory returns to an earlier state: nothing may re-run because of it)
+				var names []string
+				for n := range s.Dir {
+					names = append(names, n)
+				}
+				sort.Strings(names)
+				dir := filepath.Join(r.root, r.p.Paths[s.Path])
+				switch k := rng.Intn(5); {
+				case k == 0 && len(names) > 0: // rename
+					old := names[rng.Intn(len(names))]
+					nn := "r_" + old
+					if strings.HasPrefix(old, "r_") {
+						nn = strings.TrimPrefix(old, "r_")
+					}
+					if _, exists := s.Dir[nn]; !exists {
+						os.Rename(filepath.Join(dir, old), filepath.Join(dir, nn))
+						s.Dir[nn] = s.Dir[old]
+						delete(s.Dir, old)
+						r.emitDir(s, "rename inside a source directory")
+					}
+				case k == 1 && len(names) > 1: // delete
+					old := names[rng.Intn(len(names))]
+					os.Remove(filepath.Join(dir, old))
+					delete(s.Dir, old)
+					r.emitDir(s, "delete inside a source directory")
+				case k == 2: // add
+					r.dirPut(s, fmt.Sprintf("n%d.c", r.p.nextLit))
+					r.emitDir(s, "add inside a source directory")
+				case k == 3 && len(names) > 0: // same-content rewrite
+					n := names[rng.Intn(len(names))]
+					os.WriteFile(filepath.Join(dir, n), []byte(fmt.Sprintf("lit-%d\n", s.Dir[n])), 0644)
+					r.emitDir(s, "same-content rewrite inside a source directory")
+				default:
+					if len(names) > 0 {
+						r.dirPut(s, names[rng.Intn(len(names))])
+						r.emitDir(s, "edit inside a source directory")
+					}
+				}
+				continue
+			}
 			switch rng.Intn(6) {
 			case 0: // delete
 				os.Remove(filepath.Join(r.root, r.p.Paths[s.Path]))
